@@ -192,7 +192,7 @@ def gen_matrix(quick, rng):
     return combos
 
 
-def build_and_compile(ctx, tag, lib, header_name, header_text, opts):
+def build_and_compile(ctx, tag, lib, header_name, header_text, opts, defsets=((),)):
     import corpus
     import compilecheck
     import yaml
@@ -209,7 +209,15 @@ def build_and_compile(ctx, tag, lib, header_name, header_text, opts):
     rc, out = corpus.run_shroud(yp, od)
     if rc != 0:
         return [{"file": "(shroud)", "message": out[-700:]}], {}, yp
-    fails, done = compilecheck.compile_dir(od, [d])
+    fails, done = [], {}
+    for defs in defsets:
+        f1, d1 = compilecheck.compile_dir(od, [d], defines=defs)
+        for f in f1:
+            if defsets != ((),):
+                f["message"] = "[compiled with %s] " % (" ".join(defs) or "no definitions") + f["message"]
+        fails += f1
+        for k, v in d1.items():
+            done[k] = done.get(k, 0) + v
     if not fails:
         lf, n = compilecheck.link_check(od, [d])
         fails += lf
@@ -322,6 +330,16 @@ def run(ctx):
     guard_hpp = ("#pragma once\nclass Widget { public: Widget(); void update();\n#ifdef USE_FLAG\n  void update(int flag);\n#endif\n};\n"
                  "#ifdef HAVE_PAR\nvoid work(int comm);\n#else\nvoid work();\n#endif\n")
     jobs += [("guard_%d" % i, guard_lib, "grd.hpp", guard_hpp, o) for i, o in enumerate([dict(), dict(debug=True)])]
+    # a conditional TYPE beside an unconditional one from the same system header: the header's #include must not inherit the guard.
+    # Every file is compiled with the macro defined and undefined.
+    tguard_lib = {"library": "wide", "cxx_header": "wide.hpp", "options": {"wrap_lua": False, "wrap_python": False},
+                  "typemap": [{"type": "int64_t", "fields": {"cpp_if": "ifdef HAVE_INT64"}}],
+                  "declarations": [{"decl": "int32_t total32(int32_t a, int32_t b)"},
+                                   {"decl": "int64_t total64(int64_t a, int64_t b)", "cpp_if": "ifdef HAVE_INT64"}]}
+    tguard_hpp = "#pragma once\n#include <stdint.h>\nint32_t total32(int32_t a, int32_t b);\n#ifdef HAVE_INT64\nint64_t total64(int64_t a, int64_t b);\n#endif\n"
+    tguard_c = dict(tguard_lib, language="c", cxx_header="wide.h")
+    jobs += [("tguard_cxx", tguard_lib, "wide.hpp", tguard_hpp, {}, ((), ("-DHAVE_INT64",))),
+             ("tguard_c", tguard_c, "wide.h", tguard_hpp, {}, ((), ("-DHAVE_INT64",)))]
 
     def two(j):
         return j, build_and_compile(ctx, *j)
